@@ -3,6 +3,8 @@
   Infrastructure errors are retried, then contained per object, never fatal.
 -/
 import Kopf.Lemmas.C12_Request
+import Kopf.Lemmas.C12_Throttle
+import Kopf.Lemmas.C12_Vault
 namespace Kopf.C12
 
 /-! ## The retry loop of `api.request` — for every fault script, every backoff stream -/
@@ -88,5 +90,539 @@ theorem gap_ge_backoff (bo : Backoffs) (script : List Att) (t : Int) (j : Nat) (
     ∃ b, bo j = some b ∧ b ≤ tj' - (tj + a.lat) := by
   have := gap_ge_backoff_from bo script 0 t j tj tj' a h0 h1 ha
   simpa using this
+
+theorem verdict_429 (r : Resp) (h : r.status = 429) :
+    verdict (.http r) = .retry .tooMany (retryAfter r) := by
+  simp [verdict, raises, classify, retryable, h]
+
+/-- After a 429 that asks for `Retry-After` (header or `details.retryAfterSeconds`), the next
+    attempt — whenever there is one — starts no earlier than that, whatever the backoff and
+    whatever `enforce_retry_after`. -/
+theorem gap_ge_retry_after_from (bo : Backoffs) (enforce : Bool) (script : List Att) (i : Nat) (t : Int)
+    (j : Nat) (tj tj' : Int) (a : Att) (r : Resp) (ra : Int)
+    (h0 : (run bo enforce script i t).times[j]? = some tj)
+    (h1 : (run bo enforce script i t).times[j + 1]? = some tj')
+    (ha : script[j]? = some a) (hf : a.fault = .http r) (h429 : r.status = 429)
+    (hra : retryAfter r = some ra) :
+    ra ≤ tj' - (tj + a.lat) := by
+  induction script generalizing i t j with
+  | nil => simp at ha
+  | cons a0 rest ih =>
+    rw [run_cons] at h0 h1
+    cases hv : verdict a0.fault with
+    | success => simp [hv] at h1
+    | raise c => simp [hv] at h1
+    | retry c ra' =>
+      cases hb : bo i with
+      | none => simp [hv, hb] at h1
+      | some b =>
+        simp only [hv, hb] at h0 h1
+        cases j with
+        | zero =>
+          simp at ha h0 h1
+          obtain ⟨tl, htl⟩ := run_times_head bo enforce rest (i + 1) (t + a0.lat + slept (effDelay enforce ra' b))
+          rw [htl] at h1
+          simp at h1
+          subst ha h0
+          rw [hf, verdict_429 r h429, hra] at hv
+          injection hv with _ hra'
+          subst hra'
+          have := slept_ge (effDelay enforce (some ra) b)
+          have := effDelay_ge_ra enforce ra b
+          omega
+        | succ j =>
+          simp only [List.getElem?_cons_succ] at h0 h1 ha
+          exact ih (i + 1) _ j h0 h1 ha
+
+theorem gap_ge_retry_after (bo : Backoffs) (enforce : Bool) (script : List Att) (t : Int)
+    (j : Nat) (tj tj' : Int) (a : Att) (r : Resp) (ra : Int)
+    (h0 : (request bo enforce script t).times[j]? = some tj)
+    (h1 : (request bo enforce script t).times[j + 1]? = some tj')
+    (ha : script[j]? = some a) (hf : a.fault = .http r) (h429 : r.status = 429)
+    (hra : retryAfter r = some ra) :
+    ra ≤ tj' - (tj + a.lat) :=
+  gap_ge_retry_after_from bo enforce script 0 t j tj tj' a r ra h0 h1 ha hf h429 hra
+
+/-- a 4xx that is not 403/429 (this includes 401 at the level of `request` itself: the
+    re-authentication is `authenticated`'s business, see the vault theorems) -/
+def Fatal4xx (status : Nat) : Prop := 400 ≤ status ∧ status < 500 ∧ status ≠ 403 ∧ status ≠ 429
+
+theorem verdict_fatal (r : Resp) (h : Fatal4xx r.status) :
+    verdict (.http r) = .raise (classify r.status) := by
+  obtain ⟨h1, h2, h3, h4⟩ := h
+  have hr : raises r.status = true := by simp [raises]; omega
+  have hc : retryable (classify r.status) = false := by
+    unfold classify
+    repeat' split
+    all_goals first | rfl | omega
+  simp [verdict, hr, hc]
+
+/-- the loop never goes past an attempt whose verdict is final (success or a raise), and if it
+    gets there, that attempt decides the result -/
+theorem stops_at (bo : Backoffs) (enforce : Bool) (script : List Att) (i : Nat) (t : Int)
+    (j : Nat) (a : Att) (ha : script[j]? = some a) (o : Outcome)
+    (hv : (verdict a.fault = .success ∧ o = .ok) ∨ (∃ c, verdict a.fault = .raise c ∧ o = .escalated c)) :
+    (run bo enforce script i t).times.length ≤ j + 1 ∧
+    ((run bo enforce script i t).times.length = j + 1 → (run bo enforce script i t).outcome = o) := by
+  induction script generalizing i t j with
+  | nil => simp at ha
+  | cons a0 rest ih =>
+    rw [run_cons]
+    cases j with
+    | zero =>
+      simp at ha
+      subst ha
+      rcases hv with ⟨hv, ho⟩ | ⟨c, hv, ho⟩ <;> simp [hv, ho]
+    | succ j =>
+      simp only [List.getElem?_cons_succ] at ha
+      cases hv0 : verdict a0.fault with
+      | success => simp
+      | raise c => simp
+      | retry c ra =>
+        cases hb : bo i with
+        | none => simp
+        | some b =>
+          have := ih (i + 1) (t + a0.lat + slept (effDelay enforce ra b)) j ha
+          simp only [List.length_cons]
+          constructor
+          · omega
+          · intro h; exact this.2 (by omega)
+
+/-- Other 4xx escalate at once: wherever such a response sits in the script, no attempt follows
+    it, and if the loop reaches it the request fails with exactly that error class. -/
+theorem fatal_4xx_immediate (bo : Backoffs) (enforce : Bool) (script : List Att) (t : Int)
+    (j : Nat) (a : Att) (r : Resp) (ha : script[j]? = some a) (hf : a.fault = .http r)
+    (h4 : Fatal4xx r.status) :
+    (request bo enforce script t).times.length ≤ j + 1 ∧
+    ((request bo enforce script t).times.length = j + 1 →
+      (request bo enforce script t).outcome = .escalated (classify r.status)) :=
+  stops_at bo enforce script 0 t j a ha _ (Or.inr ⟨_, by rw [hf]; exact verdict_fatal r h4, rfl⟩)
+
+/-- … and as the very first response: exactly one attempt, no sleep. -/
+theorem fatal_4xx_first (bo : Backoffs) (enforce : Bool) (rest : List Att) (t : Int) (r : Resp) (lat : Nat)
+    (h4 : Fatal4xx r.status) :
+    request bo enforce (⟨.http r, lat⟩ :: rest) t = ⟨[t], [], .escalated (classify r.status), t + lat⟩ := by
+  simp [request, run_cons, verdict_fatal r h4]
+
+/-- a success ends the loop -/
+theorem success_stops (bo : Backoffs) (enforce : Bool) (script : List Att) (t : Int)
+    (j : Nat) (a : Att) (ha : script[j]? = some a) (hs : verdict a.fault = .success) :
+    (request bo enforce script t).times.length ≤ j + 1 ∧
+    ((request bo enforce script t).times.length = j + 1 → (request bo enforce script t).outcome = .ok) :=
+  stops_at bo enforce script 0 t j a ha _ (Or.inl ⟨hs, rfl⟩)
+
+/-- every attempt of the script is a transient failure (network error, timeout, 5xx, 403, 429) -/
+def AllTransient (script : List Att) : Prop := ∀ a ∈ script, ∃ c ra, verdict a.fault = .retry c ra
+
+/-- Transient failures are retried through the whole backoff list and then escalate: with a
+    finite list `l` (from index `i`) and a script of transient failures only,
+    * a script that outlasts the list gives exactly `len - i + 1` attempts and the error of the
+      last attempt is the one that escalates;
+    * a shorter script is retried to the end and the request then succeeds. -/
+theorem transient_retried_from (l : List Int) (enforce : Bool) (script : List Att) (i : Nat) (t : Int)
+    (hi : i ≤ l.length) (ht : AllTransient script) :
+    (l.length - i < script.length →
+      (run (ofList l) enforce script i t).times.length = l.length - i + 1 ∧
+      ∃ a c ra, script[l.length - i]? = some a ∧ verdict a.fault = .retry c ra ∧
+        (run (ofList l) enforce script i t).outcome = .escalated c) ∧
+    (script.length ≤ l.length - i →
+      (run (ofList l) enforce script i t).times.length = script.length + 1 ∧
+      (run (ofList l) enforce script i t).outcome = .ok) := by
+  induction script generalizing i t with
+  | nil => simp [run]
+  | cons a rest ih =>
+    obtain ⟨c, ra, hv⟩ := ht a (by simp)
+    have ht' : AllTransient rest := fun x hx => ht x (by simp [hx])
+    rw [run_cons]
+    simp only [hv]
+    by_cases hlt : i < l.length
+    · have hb : ofList l i = some l[i] := by simp [ofList, hlt]
+      simp only [hb]
+      have := ih (i + 1) (t + a.lat + slept (effDelay enforce ra l[i])) (by omega) ht'
+      constructor
+      · intro h
+        have h' : l.length - (i + 1) < rest.length := by simp at h; omega
+        obtain ⟨h1, a', c', ra', ha', hv', ho'⟩ := this.1 h'
+        refine ⟨by simp [h1]; omega, a', c', ra', ?_, hv', ho'⟩
+        have : l.length - i = (l.length - (i + 1)) + 1 := by omega
+        rw [this, List.getElem?_cons_succ]; exact ha'
+      · intro h
+        have h' : rest.length ≤ l.length - (i + 1) := by simp at h; omega
+        obtain ⟨h1, h2⟩ := this.2 h'
+        exact ⟨by simp [h1], h2⟩
+    · have hb : ofList l i = none := by simp [ofList]; omega
+      have hz : l.length - i = 0 := by omega
+      simp only [hb, hz]
+      constructor
+      · intro _; exact ⟨by simp, a, c, ra, by simp, hv, rfl⟩
+      · intro h; simp at h
+
+theorem transient_retried_then_escalates (l : List Int) (enforce : Bool) (script : List Att) (t : Int)
+    (ht : AllTransient script) :
+    (l.length < script.length →
+      (request (ofList l) enforce script t).times.length = l.length + 1 ∧
+      ∃ a c ra, script[l.length]? = some a ∧ verdict a.fault = .retry c ra ∧
+        (request (ofList l) enforce script t).outcome = .escalated c) ∧
+    (script.length ≤ l.length →
+      (request (ofList l) enforce script t).times.length = script.length + 1 ∧
+      (request (ofList l) enforce script t).outcome = .ok) := by
+  have := transient_retried_from l enforce script 0 t (by omega) ht
+  simpa [request] using this
+
+/-- which faults are transient: exactly network errors, time-outs, 5xx, 403 and 429 -/
+theorem transient_http_iff (r : Resp) :
+    (∃ c ra, verdict (.http r) = .retry c ra) ↔
+      (r.status = 403 ∨ r.status = 429 ∨ (500 ≤ r.status ∧ r.status < 600)) := by
+  constructor
+  · rintro ⟨c, ra, h⟩
+    unfold verdict raises at h
+    by_cases h4 : 400 ≤ r.status
+    · simp only [h4, decide_true, if_true] at h
+      by_cases hr : retryable (classify r.status) = true
+      · unfold classify at hr
+        repeat' split at hr
+        all_goals first | omega | (simp [retryable] at hr)
+      · simp [hr] at h
+    · simp [h4] at h
+  · intro h
+    have h4 : raises r.status = true := by simp [raises]; omega
+    have hr : retryable (classify r.status) = true := by
+      unfold classify
+      repeat' split
+      all_goals first | rfl | omega
+    exact ⟨classify r.status, if classify r.status = ErrClass.tooMany then retryAfter r else none,
+      by simp only [verdict, h4, hr, if_true]⟩
+
+-- non-vacuity: concrete scripts that meet the hypotheses, evaluated by the model
+example : (request (ofList [1024, 512]) false
+    [⟨.http ⟨500, none, .empty, none⟩, 256⟩, ⟨.http ⟨429, some 3072, .empty, none⟩, 0⟩,
+     ⟨.exc true false false false false, 128⟩, ⟨.http ⟨503, none, .empty, none⟩, 0⟩] 0)
+    = ⟨[0, 1280, 4352], [1024, 3072], .escalated .conn, 4480⟩ := by decide
+example : (request (ofList [1024]) true [⟨.http ⟨429, none, .statusJson, some 2048⟩, 0⟩] 0).times = [0, 2048] := by decide
+example : Fatal4xx 404 ∧ Fatal4xx 401 ∧ Fatal4xx 422 := by unfold Fatal4xx; omega
+example : AllTransient [⟨.http ⟨403, none, .empty, none⟩, 0⟩, ⟨.exc false true false false false, 3⟩] := by
+  intro a ha; simp at ha; rcases ha with rfl | rfl
+  · exact ⟨.forbidden, none, by decide⟩
+  · exact ⟨.timeout, none, by decide⟩
+example : retryAfter ⟨429, some 2560, .text, none⟩ = some 2048 := by decide   -- "2.5" → int(float()) = 2 s
+example : retryAfter ⟨429, none, .statusJson, some 0⟩ = none := by decide      -- retryAfterSeconds: 0 is falsy
+example : retryAfter ⟨429, some 0, .statusJson, some 5120⟩ = some 0 := by decide -- header "0" is truthy
+
+/-! ## `throttled` — for every delay configuration, every sequence of cycle outcomes -/
+
+/-- cycles whose block raises an error of interest and whose 2nd sleep is not interrupted
+    (any durations, gaps, `ran` flags, and wake-ups into the — never entered — 1st sleep) -/
+def QuietErrors (cs : List (CycleIn × Nat)) : Prop :=
+  ∀ c ∈ cs, c.1.body = .error true ∧ c.1.wake2 = none
+
+theorem delays_follow_config_from (l : List Int) (p : Nat) (s : Throttler) (t : Int)
+    (cs : List (CycleIn × Nat)) (h : AfterErrors l p s) (hq : QuietErrors cs) (k : Nat)
+    (hk : k < cs.length) :
+    ∃ o, (cycles (Delays.ofList l) s t cs)[k]? = some o ∧
+      o.activated = l[min (p + k) (l.length - 1)]? ∧ o.shouldRun = true ∧ o.escaped = .none_ := by
+  induction cs generalizing p s t k with
+  | nil => simp at hk
+  | cons c rest ih =>
+    obtain ⟨⟨body, ran, dur, w1, w2⟩, gap⟩ := c
+    have hc := hq _ (List.mem_cons_self ..)
+    simp only at hc
+    obtain ⟨hb, hw⟩ := hc
+    subst hb hw
+    have hstep := error_step l p s t ran dur w1 h
+    simp only [cycles]
+    cases k with
+    | zero => exact ⟨_, by simp, by simpa using hstep.1, hstep.2.2.1, hstep.2.2.2⟩
+    | succ k =>
+      have hq' : QuietErrors rest := fun x hx => hq x (List.mem_cons_of_mem _ hx)
+      obtain ⟨o, ho, ha, hs, he⟩ := ih (p + 1) _ _ hstep.2.1 hq' k (by simpa using hk)
+      exact ⟨o, by simpa using ho, by rw [ha]; congr 2; omega, hs, he⟩
+
+/-- The k-th consecutive error (counting from 0, starting from a fresh throttler) pauses the object
+    for `delays[k]`, the last delay being repeated for ever; with an empty configuration: no pause.
+    Every such error is swallowed, and the block is allowed to run each time (the pause was slept
+    through inside the cycle). -/
+theorem delays_follow_config (l : List Int) (t : Int) (cs : List (CycleIn × Nat))
+    (hq : QuietErrors cs) (k : Nat) (hk : k < cs.length) :
+    ∃ o, (cycles (Delays.ofList l) Throttler.fresh t cs)[k]? = some o ∧
+      o.activated = l[min k (l.length - 1)]? ∧ o.shouldRun = true ∧ o.escaped = .none_ := by
+  have := delays_follow_config_from l 0 Throttler.fresh t cs (afterErrors_fresh l) hq k hk
+  simpa using this
+
+/-- With an empty configuration nothing is ever throttled, whatever happens in the blocks. -/
+theorem empty_config_never_throttles (s : Throttler) (t : Int) (cs : List (CycleIn × Nat))
+    (hs : s.activeUntil = none ∧ s.last = none) :
+    ∀ o ∈ cycles (Delays.ofList []) s t cs,
+      o.shouldRun = true ∧ o.sleep1 = 0 ∧ o.sleep2 = 0 ∧ o.activated = none ∧ o.st.activeUntil = none := by
+  induction cs generalizing s t with
+  | nil => simp [cycles]
+  | cons c rest ih =>
+    obtain ⟨i, gap⟩ := c
+    have key : (cycle (Delays.ofList []) s t i).shouldRun = true ∧ (cycle (Delays.ofList []) s t i).sleep1 = 0 ∧
+        (cycle (Delays.ofList []) s t i).sleep2 = 0 ∧ (cycle (Delays.ofList []) s t i).activated = none ∧
+        (cycle (Delays.ofList []) s t i).st.activeUntil = none ∧ (cycle (Delays.ofList []) s t i).st.last = none := by
+      obtain ⟨h1, h2⟩ := hs
+      obtain ⟨b, ran, dur, w1, w2⟩ := i
+      rw [cycle_inactive _ s t _ h1]
+      unfold phase2 Delays.ofList
+      cases b with
+      | success => simp [h1]
+      | baseExc => simp [h1, h2]
+      | error oi => cases oi <;> simp [h1, h2, nextDelay]
+    intro o ho
+    simp only [cycles, List.mem_cons] at ho
+    rcases ho with rfl | ho
+    · exact ⟨key.1, key.2.1, key.2.2.1, key.2.2.2.1, key.2.2.2.2.1⟩
+    · exact ih _ _ ⟨key.2.2.2.2.1, key.2.2.2.2.2⟩ o ho
+
+/-- A success (of a block that was allowed to run) resets the throttler completely: the next
+    error starts again from `delays[0]`. -/
+theorem success_resets (cfg : Delays) (s : Throttler) (t : Int) (i : CycleIn)
+    (hb : i.body = .success) (hr : (cycle cfg s t i).shouldRun = true) :
+    (cycle cfg s t i).st = Throttler.fresh ∧ (cycle cfg s t i).escaped = .none_ ∧
+    (cycle cfg s t i).activated = none := by
+  have hsr := (cycle_shouldRun cfg s t i).1
+  rw [hr] at hsr
+  have hnone : (phase1 s t i.wake1).2.activeUntil = none := by
+    cases h : (phase1 s t i.wake1).2.activeUntil with
+    | none => rfl
+    | some u => simp [h] at hsr
+  unfold cycle
+  have := phase2_success cfg (phase1 s t i.wake1).2 (t + (phase1 s t i.wake1).1) (phase1 s t i.wake1).1 i hb
+  exact ⟨this.2.2.1 hnone, this.1, this.2.1⟩
+
+theorem success_resets_then_first_delay (l : List Int) (s : Throttler) (t t' : Int) (i : CycleIn)
+    (ran : Bool) (dur : Nat) (w1 : Option Nat)
+    (hb : i.body = .success) (hr : (cycle (Delays.ofList l) s t i).shouldRun = true) :
+    (cycle (Delays.ofList l) (cycle (Delays.ofList l) s t i).st t' ⟨.error true, ran, dur, w1, none⟩).activated
+      = l[0]? := by
+  rw [(success_resets _ s t i hb hr).1]
+  have := (error_step l 0 Throttler.fresh t' ran dur w1 (afterErrors_fresh l)).1
+  simpa using this
+
+/-- What leaves the context manager (iterable configurations): an `Exception` of interest raised by
+    a block that was allowed to run never does; a BaseException (cancellation) always does; errors
+    that are not of interest, or raised by a block that ran against `should_run = False`, are
+    re-raised. -/
+theorem swallowed (nth : Nat → Option Int) (s : Throttler) (t : Int) (i : CycleIn) :
+    (i.body = .error true → (cycle (.seq nth) s t i).shouldRun = true →
+      (cycle (.seq nth) s t i).escaped = .none_) ∧
+    (i.body = .success → (cycle (.seq nth) s t i).escaped = .none_) ∧
+    (i.body = .baseExc → ((cycle (.seq nth) s t i).shouldRun = true ∨ i.ran = true) →
+      (cycle (.seq nth) s t i).escaped = .baseException) ∧
+    (i.body = .error false → ((cycle (.seq nth) s t i).shouldRun = true ∨ i.ran = true) →
+      (cycle (.seq nth) s t i).escaped = .exception) ∧
+    (i.body = .error true → (cycle (.seq nth) s t i).shouldRun = false → i.ran = true →
+      (cycle (.seq nth) s t i).escaped = .exception) := by
+  have hsr := (cycle_shouldRun (.seq nth) s t i).1
+  have hiff : (cycle (.seq nth) s t i).shouldRun = true ↔ (phase1 s t i.wake1).2.activeUntil = none := by
+    rw [hsr]; cases (phase1 s t i.wake1).2.activeUntil <;> simp
+  have hesc := phase2_escaped nth (phase1 s t i.wake1).2 (t + (phase1 s t i.wake1).1) (phase1 s t i.wake1).1 i
+  have hsuc := phase2_success (.seq nth) (phase1 s t i.wake1).2 (t + (phase1 s t i.wake1).1) (phase1 s t i.wake1).1 i
+  have hc : cycle (.seq nth) s t i =
+      phase2 (.seq nth) (phase1 s t i.wake1).2 (t + (phase1 s t i.wake1).1) (phase1 s t i.wake1).1 i := rfl
+  refine ⟨?_, ?_, ?_, ?_, ?_⟩
+  · intro hb h; rw [hc]; exact hesc.1 hb (hiff.mp h)
+  · intro hb; rw [hc]; exact (hsuc hb).1
+  · intro hb h; rw [hc]; exact hesc.2.1 hb (h.imp hiff.mp id)
+  · intro hb h; rw [hc]; exact hesc.2.2.1 hb (h.imp hiff.mp id)
+  · intro hb h hr; rw [hc]
+    refine hesc.2.2.2 hb ?_ hr
+    intro hn; rw [hiff.mpr hn] at h; cases h
+
+/-- One object's cycle leaves every other object's throttler untouched (the throttler is a field
+    of the per-object memory). -/
+theorem other_objects_unaffected (cfg : Delays) (m : Memories) (k k' : Nat) (t : Int) (i : CycleIn)
+    (h : k' ≠ k) : stepObject cfg m k t i k' = m k' := by
+  simp [stepObject, h]
+
+/-- Processing recovers once errors stop: a cycle whose 1st sleep is not interrupted always lets
+    the block run — never before the pause is over — and if the block then succeeds the throttler
+    is as new. -/
+theorem recovers_after_errors_stop (cfg : Delays) (s : Throttler) (t : Int) (i : CycleIn)
+    (hw : i.wake1 = none) :
+    (cycle cfg s t i).shouldRun = true ∧
+    (∀ u, s.activeUntil = some u → u ≤ t + (cycle cfg s t i).sleep1) ∧
+    (i.body = .success → (cycle cfg s t i).st = Throttler.fresh) := by
+  have h1 := cycle_shouldRun cfg s t i
+  have h2 := phase1_sleep s t
+  rw [hw] at h1
+  have hsr : (cycle cfg s t i).shouldRun = true := by rw [h1.1, h2.1]; rfl
+  exact ⟨hsr, fun u hu => by rw [h1.2]; exact h2.2 u hu, fun hb => (success_resets cfg s t i hb hsr).1⟩
+
+/-- … and while the pause lasts, a wake-up (new events for the same object) does not let the block
+    run and changes nothing in the throttler. -/
+theorem paused_while_active (cfg : Delays) (s : Throttler) (t : Int) (i : CycleIn) (u : Int) (w : Nat)
+    (hu : s.activeUntil = some u) (hw : i.wake1 = some w) (hlt : (w : Int) < u - t) (hr : i.ran = false) :
+    (cycle cfg s t i).shouldRun = false ∧ (cycle cfg s t i).st = s ∧ (cycle cfg s t i).escaped = .none_ := by
+  unfold cycle
+  rw [hw, phase1_interrupted s t u w hu hlt]
+  have := phase2_skipped cfg s (t + (w : Int)) (w : Int) i u hu hr
+  exact ⟨this.2.2, this.1, this.2.1⟩
+
+-- non-vacuity
+example : QuietErrors [(⟨.error true, false, 5, none, none⟩, 7), (⟨.error true, true, 0, some 3, none⟩, 0)] := by
+  intro c hc; simp at hc; rcases hc with rfl | rfl <;> simp
+example : ((cycles (Delays.ofList [1024, 2048]) Throttler.fresh 0
+    [(⟨.error true, false, 0, none, none⟩, 0), (⟨.error true, false, 0, none, none⟩, 0),
+     (⟨.error true, false, 0, none, none⟩, 0)]).map (·.activated)) = [some 1024, some 2048, some 2048] := by decide
+example : (cycle (Delays.ofList [1024]) ⟨some 1, some 1024, some 5000⟩ 100 ⟨.success, false, 0, some 10, none⟩).shouldRun = false := by decide
+example : (cycle (Delays.ofList [1024]) ⟨some 1, some 1024, some 5000⟩ 100 ⟨.success, false, 0, none, none⟩).st = Throttler.fresh := by decide
+example : (cycle (Delays.scalar 5) Throttler.fresh 0 ⟨.error true, false, 0, none, none⟩).escaped = .typeError := by decide
+
+/-! ## `Vault` + `authenticated` + authenticator — for every label list, any number of requesters -/
+
+section Vault
+open V
+
+/-- A 401 triggers a single re-authentication, however many requests are hit. In every reachable
+    state: the number of authentication activities ever started is bounded by the number of
+    emptiness episodes (`_ready` True → False), and every emptiness episode is paid for by the
+    removal of a *distinct* vault item (`removed` has no duplicates: one item is removed at most
+    once, whoever and how many report it) or by a call that found a ready vault already empty
+    (a re-authentication that delivered nothing usable). While an activity runs the vault is not
+    ready — no second activity can start (`authStart` needs an idle authenticator) — and
+    re-authentication only ever starts on an empty vault. -/
+theorem single_reauth (s : St) (h : Reach s) :
+    s.episodes ≤ s.flips ∧ s.flips ≤ s.removed.length + s.emptyHits ∧ s.removed.Nodup ∧
+    (s.auth = .running → s.ready = false) ∧ (s.ready = false → s.cur = []) := by
+  obtain ⟨⟨a, b, c, d⟩, hi, _⟩ := inv_of_reach s h
+  refine ⟨?_, d, hi.2.2.2.2.1, a, b⟩
+  rw [← c]; omega
+
+/-- … and the other requesters hit by the same 401: invalidating a credential that is no longer
+    the current one (somebody else already reported it, or it was replaced) touches nothing in the
+    vault, blocks nobody and starts nothing, as long as some credential is available. -/
+theorem stale_invalidation_is_noop (s : St) (r : Nat) (k : Key) (it : Item)
+    (hr : s.reqs r = .invalidating k it) (hnc : isCurrent s.cur k it = false) (hne : s.cur ≠ []) :
+    step s (.inval r) = some (setPc s r (.postYield k it)) := by
+  have he : s.cur.isEmpty = false := by cases hc : s.cur <;> simp_all
+  simp only [step, hr]
+  unfold isCurrent at hnc
+  cases hl : lookup k s.cur with
+  | none => simp [invalMiss, he]
+  | some c =>
+    simp only [hl] at hnc
+    have : ¬ c.id = it.id := by simpa using hnc
+    simp [this, invalMiss, he]
+
+/-- once an item has been removed by an invalidation it is never current again: every further
+    invalidation of it is the no-op above -/
+theorem removed_item_never_current (s : St) (h : Reach s) (k : Key) (it : Item)
+    (hrem : it.id ∈ s.removed) : isCurrent s.cur k it = false := by
+  obtain ⟨_, hi, _⟩ := inv_of_reach s h
+  unfold isCurrent
+  cases hl : lookup k s.cur with
+  | none => rfl
+  | some c => simpa using (hi.2.2.2.2.2 it.id hrem).2 k c hl
+
+/-- After a re-authentication all blocked requests proceed with fresh credentials: in a reachable
+    state whose vault is ready and non-empty, a requester blocked inside `invalidate` can run
+    through `invalidate` → the post-yield check → a new selection, and what it gets is a current
+    item — whichever top-priority one `select()` picks — that is not equal to any remembered
+    invalid credential of that key. The vault itself is untouched by that. -/
+theorem all_proceed_fresh (s : St) (h : Reach s) (r : Nat) (k : Key) (it : Item)
+    (hr : s.reqs r = .invalWaiting k it) (hready : s.ready = true) (hne : s.cur ≠ [])
+    (k' : Key) (c : Item) (hl : lookup k' s.cur = some c) (htop : isTop s.cur c = true) :
+    (∃ s', V.run s [.invalWake r, .post r, .acquire r k'] = some s' ∧ s'.reqs r = .using k' c ∧
+       s'.cur = s.cur ∧ s'.ready = true) ∧
+    (∀ j ∈ lastN historyBound (s.invAll k'), ¬ matches_ j c) := by
+  obtain ⟨_, hi, hh⟩ := inv_of_reach s h
+  have he : s.cur.isEmpty = false := by cases hc : s.cur <;> simp_all
+  have hstale : isCurrent s.cur k it = false := hi.2.2.1 r k it (by rw [hr]; rfl)
+  refine ⟨⟨setPc (setPc (setPc s r (.postYield k it)) r .acquiring) r (.using k' c), ?_, by simp [setPc], rfl, hready⟩, ?_⟩
+  · simp [V.run, step, hr, hready, he, setPc, hstale, hl, htop]
+  · intro j hj
+    rw [← hh.2 k'] at hj
+    exact hh.1 k' c hl j hj
+
+/-- a non-empty vault always offers `select()` a top-priority item (so the hypothesis of
+    `all_proceed_fresh` can be met) -/
+theorem selectable (s : St) (h : Reach s) (hne : s.cur ≠ []) :
+    ∃ k c, lookup k s.cur = some c ∧ isTop s.cur c = true :=
+  exists_top s.cur (keysNodup_of_reach s h) hne
+
+/-- Invalidated credentials are not reused: whatever a requester is handed by `select()` is not
+    equal (dataclass `==`: value and priority) to any of the last `historyBound = 3` credentials
+    invalidated under that key. The bound is real, see the witness below. -/
+theorem invalid_not_reused (s s' : St) (h : Reach s) (r : Nat) (k : Key) (it : Item)
+    (hs : step s (.acquire r k) = some s') (hu : s'.reqs r = .using k it) :
+    ∀ j ∈ lastN historyBound (s.invAll k), ¬ matches_ j it := by
+  obtain ⟨_, _, hh⟩ := inv_of_reach s h
+  simp only [step] at hs
+  split at hs
+  · rename_i it0 hreq hrdy hl
+    split at hs
+    · simp at hs; subst hs
+      simp [setPc] at hu
+      subst hu
+      intro j hj
+      rw [← hh.2 k] at hj
+      exact hh.1 k it0 hl j hj
+    · simp at hs
+  · simp at hs
+
+/-- … and a repeated invalid credential offered by the login handler is refused by `populate` -/
+theorem invalid_refused_by_populate (s : St) (h : Reach s) (src : List (Key × Nat × Int))
+    (k : Key) (it : Item) (hl : lookup k (populated s src).cur = some it) :
+    ∀ j ∈ lastN historyBound (s.invAll k), ¬ matches_ j it := by
+  obtain ⟨_, hi, hh⟩ := inv_of_reach s h
+  have := invHist_populated s src hh hi
+  intro j hj
+  have hj' : j ∈ (populated s src).inv k := by
+    simp only [populated]; rw [hh.2 k]; exact hj
+  exact this.1 k it hl j hj'
+
+/-- The history bound is tight: the 4th-oldest invalidated credential of a key IS accepted and
+    served again (one requester, one key, credentials 1, 2, 3, 4 invalidated in turn, then the
+    login handler offers 1 again). -/
+theorem invalid_reused_beyond_history_witness :
+    ∃ (src : List (Key × Nat × Int)) (ls : List Label) (s : St) (it j : Item),
+      V.run (init src) ls = some s ∧ s.reqs 0 = .using 0 it ∧ j ∈ s.invAll 0 ∧ matches_ j it := by
+  let round (n : Nat) : List Label :=
+    [.unauth 0, .inval 0, .authStart, .populate [(0, n, 0)], .invalWake 0, .post 0, .acquire 0 0]
+  let ls : List Label := [.start 0, .acquire 0 0] ++ round 2 ++ round 3 ++ round 4 ++ round 1
+  have hrun : ∃ s, V.run (init [(0, 1, 0)]) ls = some s := by
+    cases hr : V.run (init [(0, 1, 0)]) ls with
+    | some s => exact ⟨s, rfl⟩
+    | none =>
+      have : (V.run (init [(0, 1, 0)]) ls).isSome = true := by decide
+      rw [hr] at this; cases this
+  obtain ⟨s, hs⟩ := hrun
+  have h1 : (V.run (init [(0, 1, 0)]) ls).map (fun s => s.reqs 0) = some (.using 0 ⟨4, 1, 0⟩) := by decide
+  have h2 : (V.run (init [(0, 1, 0)]) ls).map (fun s => s.invAll 0) =
+      some [⟨0, 1, 0⟩, ⟨1, 2, 0⟩, ⟨2, 3, 0⟩, ⟨3, 4, 0⟩] := by decide
+  rw [hs] at h1 h2
+  simp only [Option.map_some, Option.some.injEq] at h1 h2
+  exact ⟨[(0, 1, 0)], ls, s, ⟨4, 1, 0⟩, ⟨0, 1, 0⟩, hs, h1, by rw [h2]; simp, ⟨rfl, rfl⟩⟩
+
+/-- the "Reached an impossible state" RuntimeError of `authenticated` is indeed unreachable -/
+theorem no_impossible_state (s : St) (h : Reach s) (r : Nat) : s.reqs r ≠ .done .impossible :=
+  (inv_of_reach s h).2.1.2.2.2.1 r
+
+-- non-vacuity: three requesters hit by the same 401, one re-authentication, all proceed
+example :
+    ((V.run (init [(7, 10, 0)])
+      [.start 0, .start 1, .start 2, .acquire 0 7, .acquire 1 7, .acquire 2 7,
+       .unauth 0, .inval 0, .authStart, .unauth 1, .inval 1, .unauth 2, .inval 2,
+       .populate [(7, 11, 0)],
+       .invalWake 2, .post 2, .acquire 2 7, .invalWake 0, .invalWake 1, .post 0, .post 1,
+       .acquire 0 7, .acquire 1 7, .ok 0, .ok 1, .ok 2]).map
+      (fun s => ((s.episodes, s.flips, s.removed), (s.reqs 0, s.reqs 1, s.reqs 2))))
+    = some ((1, 1, [0]), (.done .ok, .done .ok, .done .ok)) := by decide
+-- the login handler offers the same credential again: refused, the blocked request gets LoginError
+example :
+    ((V.run (init [(7, 10, 0)])
+      [.start 0, .acquire 0 7, .unauth 0, .inval 0, .authStart, .populate [(7, 10, 0)], .invalWake 0]).map
+      (fun s => (s.cur.length, s.reqs 0, s.ready)))
+    = some (0, .done .loginError, true) := by decide
+-- a late 401 on the replaced credential: the stale invalidation is a no-op
+example :
+    ((V.run (init [(7, 10, 0)])
+      [.start 0, .start 1, .acquire 0 7, .acquire 1 7, .unauth 0, .inval 0, .authStart,
+       .populate [(7, 11, 0)], .unauth 1, .inval 1]).map
+      (fun s => (s.episodes, s.flips, s.ready, s.reqs 1)))
+    = some (1, 1, true, .postYield 7 ⟨0, 10, 0⟩) := by decide
+
+end Vault
 
 end Kopf.C12
